@@ -1215,6 +1215,70 @@ func genLevel(repo, out string) {
 		}
 		sb.WriteString(d6 + "\n")
 	}
+	// levelManager.recover: which handles Open rebuilds from the directory
+	{
+		fr := findFunc(p, "levelManager", "recover")
+		sp := transSpec{
+			leanName: "recover",
+			binders: "{φ ν η ι β : Type} (isDir : φ → Bool) (isDB isTmp : φ → Bool) (fname : φ → ν) (sortN : List ν → List ν) (plevel pidx : ν → Nat) (badName : ν → Bool) " +
+				"(fails : ν → Nat → Bool) (indexOf : ν → ι) (entriesOf : ν → List η) (ver : η → Nat) (mkFilter : List η → β) (readDirFails : Bool) (files : List φ) (ev : List (String × ν))",
+			retType: "Option (Nat × List (List (Nat × β × ι)) × List (String × ν))",
+			exprMap: map[string]string{"err != nil": "err", "!file.IsDir() && path.Ext(file.Name()) == \".db\"": "(!(isDir file) && isDB file)",
+				"!file.IsDir() && path.Ext(file.Name()) == _tmpSuffix": "(!(isDir file) && isTmp file)", "file.Name()": "(fname file)",
+				"len(dbFiles) == 0": "(decide (dbFiles.length = 0))", "dataBlock.Entries": "dataBlock", "entry.Version": "(ver entry)",
+				"len(lm.levels) <= level": "(decide (levels.length ≤ level))", "*bf": "bf", "list.New()": "[]"},
+			state: []string{"dbFiles", "maxVersion", "lm.levels", "ev"}, stateLn: []string{"dbFiles", "maxVersion", "levels", "ev"}, evVar: "ev",
+			stateTy:  []string{"List ν", "Nat", "List (List (Nat × β × ι))", "List (String × ν)"},
+			zero:     map[string]string{"[]string": "[]", "int64": "0", "table.Footer": "()", "table.Index": "()", "table.Data": "()"},
+			litTuple: true, loopFuel: "(level + 1)",
+			effects: map[string]string{"os.Remove(path.Join(lm.dir, file.Name()))": "os.Remove (leftover tmp)|(fname file)"},
+			binds: map[string][][2]string{
+				"os.ReadDir(lm.dir)":                                     {{"err", "readDirFails"}},
+				"os.Remove(path.Join(lm.dir, file.Name()))":              {{"err", "false"}},
+				"parseFileName(file)":                                    {{"level", "(plevel file)"}, {"idx", "(pidx file)"}, {"err", "(badName file)"}},
+				"os.Open(path.Join(lm.dir, file))":                       {{"fd", "()"}, {"err", "(fails file 1)"}},
+				"fd.Seek(-40, io.SeekEnd)":                               {{"err", "(fails file 2)"}},
+				"fd.Read(footerBytes)":                                   {{"err", "(fails file 3)"}},
+				"footer.Decode(footerBytes)":                             {{"err", "(fails file 4)"}},
+				"fd.Seek(int64(footer.IndexBlock.Offset), io.SeekStart)": {{"err", "(fails file 5)"}},
+				"fd.Read(indexBytes)":                                    {{"err", "(fails file 6)"}},
+				"index.Decode(indexBytes)":                               {{"index", "(indexOf file)"}, {"err", "(fails file 7)"}},
+				"fd.Seek(int64(index.DataBlock.Offset), io.SeekStart)":   {{"err", "(fails file 8)"}},
+				"fd.Read(dataBlockBytes)":                                {{"err", "(fails file 9)"}},
+				"dataBlock.Decode(dataBlockBytes)":                       {{"dataBlock", "(entriesOf file)"}, {"err", "(fails file 10)"}},
+				"filter.Build(dataBlock.Entries)":                        {{"bf", "(mkFilter dataBlock)"}},
+			},
+			wraps: map[string]func(string) string{
+				"slices.Sort(dbFiles)": func(tail string) string { return "(let dbFiles := sortN dbFiles; " + tail + ")" },
+				"lm.levels[level].PushBack(th)": func(tail string) string {
+					return "(let levels := levels.set level (levels.getD level [] ++ [th]); " + tail + ")"
+				},
+				"lm.logger.Panicf(*": func(string) string { return "none" },
+			},
+			skipStmt: func(st ast.Stmt) bool {
+				s := goStr(st)
+				return s == "lm.mu.Lock()" || s == "defer lm.mu.Unlock()" || strings.HasPrefix(s, "defer utils.Elapsed(") ||
+					s == "footerBytes := make([]byte, 40)" || s == "indexBytes := make([]byte, footer.IndexBlock.Length)" || s == "dataBlockBytes := make([]byte, index.DataBlock.Length)" ||
+					s == "var footer table.Footer" || s == "var index table.Index" || s == "var dataBlock table.Data"
+			},
+			ret:      func(vals []string, st []string) string { return "some (" + vals[0] + ", levels, ev)" },
+			fallOff:  func(st []string) string { return "some (maxVersion, levels, ev)" },
+			panicVal: "none",
+			skipCall: func(c *ast.CallExpr) bool { return strings.HasPrefix(goStr(c.Fun), "vhook.") },
+		}
+		d := ""
+		err := fmt.Errorf("levelManager.recover not found")
+		if fr != nil {
+			t := &translator{spec: sp}
+			body := t.stmts(fr.Body.List, func() string { return "some (maxVersion, levels, ev)" }, "", "")
+			err = t.err
+			d = fmt.Sprintf("def %s %s : %s :=\n  let dbFiles : List ν := []\n  let maxVersion : Nat := 0\n  let levels : List (List (Nat × β × ι)) := []\n  %s\n", sp.leanName, sp.binders, sp.retType, body)
+		}
+		if err != nil {
+			d = fmt.Sprintf("/-- UNTRANSLATABLE: %s -/\ndef recover : Unit := ()\n", strings.ReplaceAll(err.Error(), "-/", "- /"))
+		}
+		sb.WriteString(d + "\n")
+	}
 	// writeTable: how a table file is published
 	{
 		f5 := findFunc(p, "levelManager", "writeTable")
